@@ -386,3 +386,22 @@ claim(
     "Markup construction or sink is reported for review, by design.",
     "DESIGN.md section 5 C05",
 )
+
+claim(
+    "C11",
+    "FLOW+TBL+OWN",
+    "static: taint of delimiter parameters into regex patterns; name-by-name plumbing tables of the memoised factories; literal scan; identity rules",
+    "Clauses: the six delimiter parameters reach the lexer's patterns only through re.escape; "
+    "they keep name and position through Environment.tokenizer -> get_lexer -> "
+    "compile_liquid_rules / _tokenize_template, Environment.__init__ stores each under its own "
+    "name, Template() forwards every configuration keyword under its own name to "
+    "get_implicit_environment and that to Environment() (so each lru_cache key is the whole "
+    "configuration); no lexing/tokenising function contains a hard-coded delimiter outside "
+    "parameter defaults; Environment defines no __eq__ and hashes delimiters+mode, Parser keeps "
+    "only env, every attribute a Tag stores derives from its env, parsing uses get_parser(self), "
+    "self.tokenizer() and a fresh TokenStream.",
+    "Not decided: output equality under delimiter rewriting as such. Reviewed row: the liquid "
+    "tag derives its line-comment marker from comment_start_string (documented). Shared mutable "
+    "module state is decided under C17-MODULE.",
+    "DESIGN.md section 5 C11",
+)
